@@ -8,7 +8,7 @@ STRUCT_WEIGHTS = {
     "set_attr": 10, "set_dim": 3, "link_append": 6, "link_remove": 3, "set_metadata": 3,
     "del_metadata": 1, "set_role": 2, "delete": 4, "link_dim": 2, "delete_dims": 0.5, "unlink_dim": 1,
     "restart": 3, "create_property": 3, "prop_values": 3, "sec_dict": 1, "set_odml": 0.5,
-    "create_frame": 1.5,
+    "create_frame": 1.5, "df_op": 1.5,
 }
 
 
@@ -27,9 +27,9 @@ class C10(Profile):
     prop = "C10"
     name = "C10"
     weights = {"create_section": 3, "create_property": 6, "prop_values": 14, "set_attr": 4, "set_odml": 1,
-               "sec_dict": 8, "delete": 2, "restart": 3}
+               "sec_dict": 8, "delete": 2, "restart": 3, "observe": 5}
     owned = ("state_", "reopen_", "missing_refusal", "wrong_error_class", "refused_changed_values",
-             "sec_dict_mismatch", "unexpected_error", "create_result")
+             "sec_dict_mismatch", "unexpected_error", "create_result", "alias_view")
     never_off = ("restart", "create_section", "create_property", "prop_values")
 
     def tune_knobs(self, k, rng):
@@ -44,7 +44,7 @@ class C03(Profile):
     name = "C03"
     weights = {"create_block": 3, "create_group": 4, "create_array": 4, "create_tag": 3, "create_mtag": 2,
                "create_feature": 2, "create_source": 5, "create_section": 5, "create_property": 4,
-               "link_append": 5, "link_remove": 3, "delete": 9, "restart": 3}
+               "create_frame": 3, "link_append": 5, "link_remove": 3, "delete": 9, "restart": 3}
     owned = ("container_agreement", "id_unique", "missing_refusal", "wrong_error_class", "unexpected_error",
              "create_result", "lookup_failed", "lookup_wrong_entity", "reopen_failed")
     reopen_introspect = False
@@ -92,7 +92,7 @@ class C04(Profile):
     name = "C04"
     weights = {"create_block": 2, "create_group": 4, "create_array": 4, "create_tag": 3, "create_mtag": 3,
                "create_feature": 3, "create_source": 5, "create_section": 5, "create_property": 2,
-               "append_dim": 2, "link_dim": 2, "link_append": 14, "set_metadata": 7, "set_role": 3,
+               "create_frame": 2, "append_dim": 2, "link_dim": 2, "link_append": 14, "set_metadata": 7, "set_role": 3,
                "delete": 10, "link_remove": 5, "del_metadata": 3, "restart": 1}
     DEL_SITES = ("delete", "link_remove", "del_metadata")
     late_ops = ("delete", "link_remove", "del_metadata", "restart")
@@ -263,7 +263,7 @@ class C19(Profile):
                "create_feature": 3, "create_source": 3, "create_section": 4, "create_property": 2,
                "append_dim": 5, "set_attr": 22, "set_dim": 2, "link_append": 3, "set_metadata": 2,
                "set_role": 5, "delete": 1, "data_write": 2, "prop_values": 1, "toggle_auto": 3,
-               "force_ts": 7, "restart": 3, "link_dim": 1}
+               "force_ts": 7, "restart": 3, "link_dim": 1, "create_frame": 2, "df_op": 4}
     reopen_introspect = True
     never_off = ("restart", "set_attr", "force_ts", "toggle_auto", "append_dim")
     fault_kinds = ("restart_rw", "restart_ro", "clock:stall", "clock:jump", "clock:back", "toggle_auto")
@@ -506,7 +506,8 @@ class C20(Profile):
     weights = {"create_block": 2, "create_group": 4, "create_array": 5, "create_frame": 2, "create_tag": 3,
                "create_mtag": 2, "create_feature": 3, "create_source": 3, "create_section": 5,
                "create_property": 5, "append_dim": 3, "set_attr": 6, "link_append": 9, "set_role": 1,
-               "prop_values": 2, "data_write": 2, "link_dim": 1, "copy_experiment": 9, "restart": 1}
+               "prop_values": 2, "data_write": 2, "link_dim": 1, "copy_experiment": 9, "restart": 1,
+               "set_metadata": 4}
     owned = ("copy_",)
     reopen_introspect = False
     never_off = ("copy_experiment", "create_block", "create_section")
@@ -522,7 +523,7 @@ class C20(Profile):
         k["max_extent"] = 3
         k["walk_every"] = 0
         k["n_ops"] = rng.randint(10, 40)
-        k["md_kinds"] = []
+        k["md_kinds"] = ["array", "frame", "tag", "mtag", "block", "group"]
 
     def setup_ops(self, run, rng):
         ops = Profile.setup_ops(self, run, rng)
@@ -565,7 +566,7 @@ class C18(Profile):
             k["max_rank"] = 1
 
 
-ALL_MUTATING = dict(STRUCT_WEIGHTS, data_write=2, data_assign=2, data_append=2, data_resize=1)
+ALL_MUTATING = dict(STRUCT_WEIGHTS, data_write=2, data_assign=2, data_append=2, data_resize=1, df_op=3)
 
 
 class C11(Profile):
